@@ -206,6 +206,115 @@ fn one_history(run: &Run, case: u64) {
     run.sample(|| json!({"case": case, "history": descs}));
 }
 
+/// The source changes underneath a running backup: after the entry `trigger` has been
+/// recorded, files that sort after it (already listed and stat'ed with their directory, not yet
+/// read) are truncated, emptied, extended, replaced or removed. Whatever the backup makes of
+/// them, what it writes must still conform.
+fn one_concurrent_change(run: &Run, case: u64) {
+    let mut rng = Rng::for_case(run.seed, case, 23);
+    let o = Opts { hunk: *rng.pick(&[2usize, 5, 100_000]), block: *rng.pick(&[64usize, 1000, 4096]), cap: *rng.pick(&[10u64, 64, 4096]) };
+    let mut spec = Snapshot::new();
+    spec.insert("/".into(), Node::dir());
+    spec.insert("/d".into(), Node::dir());
+    let sizes = [0usize, 3, 9, 10, 11, 60, 64, 65, 300, 1001, 5000, 9000];
+    let mut files = Vec::new();
+    for i in 0..(6 + rng.below(6)) {
+        let dir = if rng.chance(1, 2) { "/d" } else { "" };
+        let name = format!("{dir}/f{i:02}");
+        let size = *rng.pick(&sizes);
+        let mut n = Node::file(tree::gen_content(&mut rng, size));
+        n.mtime_s = 1_600_000_000 + i as i64;
+        spec.insert(name.clone(), n);
+        files.push(name);
+    }
+    let sc = Scratch::new("c13c");
+    let src = sc.join("src");
+    tree::sync_to_disk(None, &spec, &src).expect("materialise");
+    let snap = tree::snapshot(&src).expect("snapshot");
+    files.sort_by(|a, b| apath_cmp(a, b));
+    // trigger: one of the entries except the last file; victims: 1-3 files after it
+    let ti = rng.below(files.len() as u64 - 1) as usize;
+    let trigger = files[ti].clone();
+    let later: Vec<String> = files.iter().filter(|f| apath_cmp(&trigger, f) == std::cmp::Ordering::Less).cloned().collect();
+    let mut victims: Vec<(String, &'static str)> = Vec::new();
+    for v in &later {
+        if victims.len() < 3 && rng.chance(1, 2) {
+            victims.push((v.clone(), *rng.pick(&["truncate-half", "truncate-0", "truncate-1", "extend", "replace-longer", "remove", "replace-same-size"])));
+        }
+    }
+    if victims.is_empty() {
+        victims.push((later[0].clone(), "truncate-half"));
+    }
+    let arch = sc.join("arch");
+    cs::create_archive(&arch);
+    let fired = std::sync::Arc::new(std::sync::atomic::AtomicBool::new(false));
+    let cb = {
+        let (fired, trigger, victims, src) = (fired.clone(), trigger.clone(), victims.clone(), src.clone());
+        std::sync::Arc::new(move |apath: &str| {
+            if apath == trigger && !fired.swap(true, std::sync::atomic::Ordering::SeqCst) {
+                for (v, action) in &victims {
+                    let p = src.join(&v[1..]);
+                    let old = std::fs::read(&p).unwrap_or_default();
+                    let _ = match *action {
+                        "truncate-half" => std::fs::write(&p, &old[..old.len() / 2]),
+                        "truncate-0" => std::fs::write(&p, b""),
+                        "truncate-1" => std::fs::write(&p, &old[..old.len().min(1)]),
+                        "extend" => std::fs::write(&p, [old.clone(), vec![b'+'; 1 + old.len()]].concat()),
+                        "replace-longer" => std::fs::write(&p, vec![b'R'; old.len() * 3 + 70]),
+                        "replace-same-size" => std::fs::write(&p, vec![b'S'; old.len()]),
+                        _ => std::fs::remove_file(&p),
+                    };
+                }
+            }
+        })
+    };
+    let desc = format!("{}; after {trigger} was recorded: {victims:?}", o.label());
+    let replay = json!({"concurrent_change": true, "case": case});
+    run.eval();
+    let b = cs::backup_cb(cs::local(&arch), &src, o, cb);
+    if let Some(p) = &b.panic {
+        run.violation(format!("backup-panic-while-source-changes:{}", crate::report::panic_site(p)), format!("{desc}: {p}"), replay);
+        return;
+    }
+    if !fired.load(std::sync::atomic::Ordering::SeqCst) {
+        run.count("concurrent_change_trigger_not_reached", 1);
+        return;
+    }
+    run.count("backups_with_source_changing_underneath", 1);
+    let raw = fmt06::read_archive(&arch, true);
+    let mut quiet = snap.clone();
+    for (v, _) in &victims {
+        quiet.remove(v);
+    }
+    let mut sources = BTreeMap::new();
+    sources.insert(0u32, quiet);
+    match check_format(&raw, &sources) {
+        Ok(c) => {
+            run.count("entries_checked", c.entries);
+            run.count("addresses_checked", c.addrs);
+            // what became of the victims
+            if let Some(band) = raw.bands.get(&0) {
+                let own = band.own_entries();
+                for (v, action) in &victims {
+                    let old_len = snap[v].content.len() as u64;
+                    let fate = match own.iter().find(|e| &e.apath == v) {
+                        None => "not-recorded",
+                        Some(e) if e.size() == old_len => "recorded-with-the-listed-size",
+                        Some(_) => "recorded-with-another-size",
+                    };
+                    run.observe("victim_fates", format!("{action}:{fate}"));
+                    if fate == "recorded-with-another-size" {
+                        run.count("victims_recorded_with_a_size_other_than_the_listed_one", 1);
+                    }
+                }
+            }
+            run.nontrivial(fnv(desc.as_bytes()));
+            run.sample(|| json!({"concurrent_change_case": case, "scenario": desc}));
+        }
+        Err((sig, d)) => run.violation(format!("format-while-source-changes:{sig}"), format!("{desc}: {d}"), replay),
+    }
+}
+
 /// A band with more than 10 000 hunks crosses into the second hunk subdirectory.
 fn many_hunks(run: &Run) {
     let sc = Scratch::new("c13big");
@@ -247,14 +356,20 @@ pub fn run(tier: Tier, replay: Option<Value>) -> i32 {
         many_hunks(&run);
         return run.finish("replay", &[], None, &[]);
     }
-    run.par_cases(tier.pick(150, 8000), super::threads(), |c| one_history(&run, c));
+    let cc_replay = replay.as_ref().and_then(|r| r.get("concurrent_change")).is_some();
+    if !cc_replay {
+        run.par_cases(tier.pick(150, 8000), super::threads(), |c| one_history(&run, c));
+    }
+    if replay.is_none() || cc_replay {
+        run.par_cases(tier.pick(400, 20000), super::threads(), |c| one_concurrent_change(&run, c));
+    }
     if replay.is_none() {
         many_hunks(&run);
     }
     run.finish(
-        "histories as in C02 with options drawn to produce every layout (1-entry hunks, 1-byte blocks, small-file cap 0/1, hunks overflowing through a combined flush), plus one band of 10 051 one-entry hunks (crossing i/00001); after every archive-changing step, including interrupted backups, the harness's own reader (std::fs + raw Snappy + serde_json::Value + BLAKE2b) checks: band directory names, head and tail fields, tail hunk count == hunk files, hunk files at their canonical paths numbered 0..m-1, each hunk decodes and is non-empty, apaths valid and strictly increasing within and across hunks, kinds, addrs only on files with lengths summing to the file's size in that version's source snapshot, target exactly on symlinks, every block under its first three hex digits and named by the BLAKE2b-512 of its content, every address inside its block. Non-trivial = history producing bands with different hunk counts.",
+        "histories as in C02 with options drawn to produce every layout (1-entry hunks, 1-byte blocks, small-file cap 0/1, hunks overflowing through a combined flush), plus one band of 10 051 one-entry hunks (crossing i/00001); plus backups during which the source changes underneath (from the change callback of one entry, 1-3 files sorting after it -- already listed and stat'ed, not yet read -- are truncated, emptied, extended, replaced or removed: the size clause is then waived for those files, everything else must hold); after every archive-changing step, including interrupted backups, the harness's own reader (std::fs + raw Snappy + serde_json::Value + BLAKE2b) checks: band directory names, head and tail fields, tail hunk count == hunk files, hunk files at their canonical paths numbered 0..m-1, each hunk decodes and is non-empty, apaths valid and strictly increasing within and across hunks, kinds, addrs only on files with lengths summing to the file's size in that version's source snapshot, target exactly on symlinks, every block under its first three hex digits and named by the BLAKE2b-512 of its content, every address inside its block. Non-trivial = history producing bands with different hunk counts.",
         &["doc/format.md says the address length key is 'length'; conserve writes and reads 'len' — the reader follows the code (noted in DESIGN.md)", "snap, serde_json, blake2-rfc trusted"],
         None,
-        &[("archive_states_checked", 100), ("states_after_interrupted_backup", 5), ("addresses_checked", 500), ("bands_with_more_than_10000_hunks", 1)],
+        &[("archive_states_checked", 100), ("states_after_interrupted_backup", 5), ("addresses_checked", 500), ("bands_with_more_than_10000_hunks", 1), ("backups_with_source_changing_underneath", 100), ("victims_recorded_with_a_size_other_than_the_listed_one", 10)],
     )
 }
